@@ -47,6 +47,24 @@ CLAIMED = {
                 "UF/RR/DI/SD/PR/IC/CL combination with all other bits free.",
         "design_ref": "DESIGN.md section 5 C18", "note": NOTE, "technique": T_SYMX,
     },
+    "C09": {
+        "text": "bounded symbolic checking: every TC19 subtype 1-4 field combination and every TC5-8 movement/track code "
+                "with all other bits free; results equal the DO-260B decode, None exactly when unavailable; libm is "
+                "uninterpreted (operands, order and [0,360) normalisation are what is decided).",
+        "design_ref": "DESIGN.md section 5 C09", "note": NOTE, "technique": T_SYMX + "; libm as uninterpreted functions",
+    },
+    "C11": {
+        "text": "bounded symbolic checking: each Comm-B field decoder on a fully symbolic 112-bit frame equals the Doc 9871 "
+                "row (status gate, two's complement, LSB, offset, wrap) within LSB*1e-6; cap17 four bits at a time; "
+                "commb.* object identity.",
+        "design_ref": "DESIGN.md section 5 C11", "note": NOTE, "technique": T_SYMX,
+    },
+    "C13": {
+        "text": "bounded symbolic checking: every TC28/29(subtype 0,1)/31/19 status, intent and quality field on a fully "
+                "symbolic frame equals the DO-260A/B layout; look-ups total on their domain and monotone (two-copy "
+                "frames through the real functions).",
+        "design_ref": "DESIGN.md section 5 C13", "note": NOTE, "technique": T_SYMX,
+    },
 }
 
 NOT_APPLICABLE = {
@@ -56,4 +74,4 @@ NOT_APPLICABLE = {
 
 # designed (DESIGN.md section 5) but the harness is not finished: not claimed, never checked with a weaker technique
 NOT_BUILT = {pid: "harness not built yet (DESIGN.md section 7.1 order of construction)" for pid in
-             ["C03", "C04", "C05", "C06", "C09", "C11", "C12", "C13", "C14", "C15", "C16", "C17", "C19"]}
+             ["C03", "C04", "C05", "C06", "C12", "C14", "C15", "C16", "C17", "C19"]}
